@@ -307,5 +307,13 @@ ADDENDA45 = {
     'C19': ' Rounds 4-5: every comprehension path of get_assets is judged; the equal-weight rule ignores the path of an optimiser built without a scale (scale is None); '
            'class-level literals never assigned in the class family are read off self.',
 }
+ADDENDA7 = {
+    'C15': ' Round 7: S4 - a field with a checked (refusing) one-argument setter is stored elsewhere only after the same value went through that setter on the path '
+           '(instance: Position._check_set_dt); UNDECIDED if no such setter exists.',
+}
+ROUND7_COMMON = (' Round 7: the hygiene scan every check runs over its modules also reports a kept cursor caught up by one conditional step or walked forward only under an '
+                 'unbounded question, two positional arguments each bound to the other\'s parameter, a remembered answer reused under a key that runs over a mapping\'s keys '
+                 '(or takes a collection\'s length) while the answer depends on its values, and a table entry chosen by a test on something its key leaves out; kept state that is '
+                 'compared with the question before use is UNDECIDED, not a violation (DESIGN 9.1-31, 10.13).')
 for _pid, _m in PROPS.items():
-    _m['explanation'] = _m['explanation'] + ADDENDA.get(_pid, '') + ADDENDA45.get(_pid, '') + COMMON_ADDENDUM
+    _m['explanation'] = _m['explanation'] + ADDENDA.get(_pid, '') + ADDENDA45.get(_pid, '') + ADDENDA7.get(_pid, '') + ROUND7_COMMON + COMMON_ADDENDUM
